@@ -8,10 +8,28 @@ C10 (AST-level round trips) ops.
                                          structural comparison; the failing detail is in the token)
   J rtgen <kind> <generator description> <token>   the same for objects too large to put on the line
   J alias <ctx> <hex a> <hex b> <token>  ok iff token = pass
+  J rtsane <entry> <ctx> <ast> <token>   round trip through the DEFAULT parser (`Miniscript::from_str`, `Descriptor::from_str`):
+                                         expected token = pass if the entry-point model of Model/Validate.lean accepts the
+                                         object, `reject` otherwise (a sane object must parse back, an insane one must not)
+  J rtpol <kind> <wire policy> <hex s> <token>
+                                         policies with real keys and both lock units: pass, or (concrete only)
+                                         `reject:timelock-mix` iff the SPEC says the policy mixes units on a path
+  J wpfromdesc <route> <hex descriptor> <hex template | ERR>   SPEC Spec/Bip388.lean `templateOf`
+  J wptemplate <hex template> <hex printed | ERR>               SPEC `checkTemplate` (placeholder rules, short forms)
+  J wpinto <hex template> <hex k0,k1,…> <hex descriptor | ERR>  SPEC `instantiate`
+  J wpback <hex descriptor> <hex descriptor | ERR>              from_descriptor then into_descriptor is the identity
+  J keyform <parser> <hex text> <accepted|rejected>             SPEC Spec/KeyGrammar.lean: a text in the BIP-380/389 key
+                                         grammar (around a genuine key) must be accepted; other spellings are not judged
+  J numarg <position> <hex N> <accepted:v | rejected>           MODEL `Expr.parseNum` + the range of the position
+                                         (after/older 1..2^31-1, thresh3/multi3 1..3, semthresh4 2..3, weight 1..2^32-1)
 -/
 import MsVerif.Driver.OpsMs
 import MsVerif.Driver.OpsText
+import MsVerif.Driver.OpsPolicy
+import MsVerif.Driver.OpsValidate
 import MsVerif.Model.Display
+import MsVerif.Spec.Bip388
+import MsVerif.Spec.KeyGrammar
 
 namespace MsVerif.Driver
 open MsVerif MsVerif.Display
@@ -60,8 +78,62 @@ def gvCtx (ctx : Ctx) (m : Ms) : Bool :=
   | .bare => (match m with | .multiA .. | .sortedMultiA .. => false | _ => true) && cost ≤ 10000
   | .tap => (match m with | .multi .. | .sortedMulti .. => false | _ => true) && cost ≤ 4000000
 
-def opsDisplay (_t : Tables) (kind op : String) (args : List String) : Option String :=
+/-- the positions the harness probes: `thresh3`/`multi3`/`cthresh3` have 3 children, `semthresh4` is a
+semantic threshold with 4 children (1-of-n and n-of-n are refused there) -/
+def parseNumPos : String → Option NumPos
+  | "after" | "older" => some .lock
+  | "thresh3" | "multi3" | "cthresh3" => some (.threshK 3 1 3)
+  | "semthresh4" => some (.threshK 4 2 3)
+  | "weight" => some .weight
+  | _ => none
+
+def numargSpec (pos : String) (n : List Char) : Option Nat :=
+  (parseNumPos pos).bind fun p => numArg p n
+
+def hexOrErr (tok : String) : Option (Option String) :=
+  if tok == "ERR" then some none else (Text.unhex tok).map some
+
+def opsDisplay (t : Tables) (kind op : String) (args : List String) : Option String :=
   match kind, op, args with
+  | "J", "rtsane", [entry, ctx, ast, tok] => do
+    let e ← Val.parseEntry entry; let ctx ← parseCtx ctx; let ms ← parseAst ast
+    let expected := if accepts t.keyEnv (Val.keyInfoOf t) ctx e ms then "pass" else "reject"
+    pure (if tok == expected then "ok" else s!"bad:expected-{expected}-got-{tok}")
+  | "J", "rtpol", [kind, wire, _, tok] => do
+    if tok == "pass" then pure "ok" else
+    if tok == "reject:timelock-mix" && kind.startsWith "concrete" then do
+      let c ← PolicyOps.parseCPolicy wire
+      pure (if MsVerif.Pol.hasMixedPath c then "ok" else "bad:rejected-without-a-mixed-path")
+    else pure ("bad:" ++ tok)
+  | "J", "wpfromdesc", [_, d, tmpl] => do
+    let d ← Text.unhex d; let lib ← hexOrErr tmpl
+    let spec := (Spec.Bip388.templateOf d.toList).map (fun r => String.ofList r.1)
+    pure (if lib == spec then "ok" else s!"bad:spec={spec.getD "ERR"}")
+  | "J", "wptemplate", [tm, printed] => do
+    let tm ← Text.unhex tm; let lib ← hexOrErr printed
+    let spec := (Spec.Bip388.checkTemplate tm.toList).map (fun r => String.ofList r.1)
+    pure (if lib == spec then "ok" else s!"bad:spec={spec.getD "ERR"}")
+  | "J", "wpinto", [tm, keys, d] => do
+    let tm ← Text.unhex tm; let keys ← Text.unhex keys; let lib ← hexOrErr d
+    let ks := (keys.splitOn ",").map String.toList
+    let spec := ((Spec.Bip388.checkTemplate tm.toList).bind fun (_, n) =>
+      if n == ks.length then Spec.Bip388.instantiate tm.toList ks else none).map String.ofList
+    pure (if lib == spec then "ok" else s!"bad:spec={spec.getD "ERR"}")
+  | "J", "wpback", [d, back] => do
+    let d ← Text.unhex d; let lib ← hexOrErr back
+    pure (if lib == some d then "ok" else "bad:not-the-identity")
+  | "J", "keyform", [parser, h, verdict] => do
+    let s ← Text.unhex h
+    let secret := parser.startsWith "sec"
+    let excluded := parser == "sec-in-parse_descriptor" && Spec.KeyGrammar.hardenedMulti s.toList
+    if Spec.KeyGrammar.valid secret s.toList && !excluded then
+      pure (if verdict == "accepted" then "ok" else "bad:valid-key-expression-" ++ verdict)
+    else pure "ok"
+  | "J", "numarg", [pos, h, verdict] => do
+    let n ← Text.unhex h
+    let expected := match numargSpec pos n.toList with
+      | some v => s!"accepted:{v}" | none => "rejected"
+    pure (if verdict == expected then "ok" else s!"bad:expected-{expected}")
   | "C", "mstree", [ctx, ast] => do
     let ctx ← parseCtx ctx; let ms ← parseAst ast
     pure (String.ofList (display (decCodec (gvCtx ctx)) ms))
